@@ -153,6 +153,10 @@ func AddStandardFilters(fd FilterDictionary) { //nolint: gocyclo
 	})
 	fd.AddFilter("round", func(n float64, places func(int) int) float64 {
 		pl := places(0)
+		if pl >= 0 && n == math.Trunc(n) {
+			// already whole: n*exp+0.5 would lose precision near 2^53
+			return n
+		}
 		exp := math.Pow10(pl)
 		return math.Floor(n*exp+0.5) / exp
 	})
